@@ -20,7 +20,7 @@ import os
 import re
 
 from mc import core, engine_seq
-from ref.gridmodel import GridModel, ModelError
+from ref.gridmodel import GridModel, ModelError, fix_blockname
 
 ID = 'C08'
 LEVEL = 'model_checking'
@@ -37,6 +37,7 @@ ASSUMPTIONS = [
     'reorder lists name existing blocks / connections at most once (a pair reversed only when the reversed name does not denote '
     'another connection); incomplete lists - also reorder(geo=) on a grid holding more than the geometry, e.g. after minc - must '
     'lose nothing: unnamed objects stay after the named ones, or the call refuses and leaves the grid as it was; demote_block only existing names',
+    'rename_blocks fixes TOUGH2-style spellings (blank in column 4 between digits) in keys and values by default (documented); maps with such spellings are in the alphabet, with and without fix_blocknames',
     'contract: rename_blocks maps are one-to-one on the present blocks and their image avoids present blocks that are '
     'not themselves renamed (keys that name no block are allowed and ignored)',
     'minc with a selection that yields a matrix block name twice (block listed twice, two names differing in the first character, '
@@ -570,6 +571,29 @@ def readd_ops(state):
     return ops
 
 
+T2STYLE, T2STYLE2 = '  1 5', '  2 5'       # TOUGH2-style spellings of '  105', '  205'
+
+
+def t2style_renames(state):
+    """Maps whose keys / values are spelt the TOUGH2 way (blank in column 4 between digits): rename_blocks
+    fixes them by default, so the block takes (or is found under) the spelling with the zero."""
+    m, uni = state.model, state.uni
+    present = list(m.blocks)
+    upres = [n for n in present if n in uni]
+    fixed, fixed2 = fix_blockname(T2STYLE), fix_blockname(T2STYLE2)
+    ops = []
+    if upres and fixed not in present and T2STYLE not in present:
+        ops.append(['rename_blocks', [[upres[0], T2STYLE]]])                  # value needs fixing
+        ops.append(['t2data_rename_blocks', [[upres[-1], T2STYLE]], False])
+        ops.append(['rename_blocks', [[upres[0], T2STYLE]], False])           # fix_blocknames=False: taken literally
+    if fixed in present and fixed2 not in present:
+        ops.append(['rename_blocks', [[T2STYLE, T2STYLE2]]])                  # key and value need fixing
+        absent = [n for n in uni if n not in present]
+        if absent:
+            ops.append(['rename_blocks', [[T2STYLE, absent[0]]]])             # key needs fixing
+    return ops
+
+
 def partial_reorders(m):
     """reorder() with lists that do not name every block / connection."""
     ops = []
@@ -655,6 +679,7 @@ def ops_of(state, depth, reduced=False):
         ops.append(['rename_blocks', mp])
     for mp in rename_maps(present, uni, True):
         ops.append(['t2data_rename_blocks', mp, False])
+    ops += t2style_renames(state)
     if upres and SPARE not in present and uni[-1] not in present:
         ops.append(['t2data_rename_blocks', [[uni[-1], upres[0]]], True])          # inverted map
     # check, minc
@@ -737,6 +762,7 @@ def ops_reduced(state):
             ops.append(['rename_blocks', mp])
     for mp in maps[:1] + maps[-2:-1]:
         ops.append(['t2data_rename_blocks', mp, False])
+    ops += [o for o in t2style_renames(state) if o[0] == 'rename_blocks' and len(o) == 2]
     ops.append(['check_fix'])
     for s in [[n] for n in upres[:1]]:
         if minc_enabled(m, MINC_FRACTIONS[1], s):
@@ -778,7 +804,11 @@ def op_class(state, op):
         mp = op[1]
         if k == 't2data_rename_blocks' and op[2]:
             mp = [[v, key] for key, v in mp]
-        return map_class(mp, m.blocks)
+        literal = k == 'rename_blocks' and len(op) > 2 and op[2] is False
+        t2 = any(fix_blockname(x) != x for pr in mp for x in pr)
+        if not literal:
+            mp = [[fix_blockname(a), fix_blockname(b)] for a, b in mp]
+        return map_class(mp, m.blocks) + ('-tough2-style-names' + ('-unfixed' if literal else '') if t2 else '')
     if k == 'reorder':
         parts = []
         if op[1]:
@@ -890,7 +920,10 @@ def apply_impl(state, op):
     elif k == 'reorder_geo':
         g.reorder(geo=seed_geo(state.seed))
     elif k == 'rename_blocks':
-        g.rename_blocks(dict((a, b) for a, b in op[1]))
+        if len(op) > 2 and op[2] is False:
+            g.rename_blocks(dict((a, b) for a, b in op[1]), fix_blocknames=False)
+        else:
+            g.rename_blocks(dict((a, b) for a, b in op[1]))
     elif k == 't2data_rename_blocks':
         dat = t2data_wrapper(g, state.model, state.uni)
         dat.rename_blocks(dict((a, b) for a, b in op[1]), invert=op[2])
@@ -962,7 +995,7 @@ def apply_model(state, op, result, notes):
         geo = seed_geo(state.seed)
         m.reorder(list(geo.block_name_list), [tuple(c) for c in geo.block_connection_name_list])
     elif k == 'rename_blocks':
-        m.rename_blocks(dict((a, b) for a, b in op[1]))
+        m.rename_blocks(dict((a, b) for a, b in op[1]), fix_blocknames=not (len(op) > 2 and op[2] is False))
     elif k == 't2data_rename_blocks':
         mp = dict((a, b) for a, b in op[1])
         if op[2]:
